@@ -26,6 +26,7 @@ def run(ctx):
     ctx.rule("R04.e", "update(...) captures the previous values (of every given key) and links before applying, and _ParametersRestorer.__exit__ re-applies them through _update", floor=3)
     ctx.rule("R04.f", "trigger re-submits the CURRENT values of the named parameters (plus the transient True of Events) under the trigger flag", floor=1)
     ctx.rule("R04.h", "flush model (abstract interpretation on small queues): every queued watcher runs exactly once in (precedence, queue position) order with the last event per watched parameter; cascaded events are delivered in a further round", floor=1)
+    ctx.rule("R04.m", "update model: Parameters._update interpreted abstractly (entry batching flag x key orders incl. an Event key x a rejected or unknown key at every position x a value identical to the current one, 60 cases): flag restored, flush exactly once iff outermost and after the restore, keys applied in order up to the failing one, Event mode and reset, complete previous-values mapping", floor=1)
     ctx.not_decided += ["delivery counts and event contents under arbitrary nestings of batch/update/discard/trigger (need execution)"]
 
     # ------------------------------------------------------------ R04.a
@@ -312,3 +313,6 @@ def run(ctx):
     # the structural findings above are still reported
     from checks.shared import flush_model
     flush_model(ctx, "R04.h")
+
+    from checks import update_model
+    update_model.report(ctx, "C04", "R04.m")
